@@ -54,7 +54,7 @@ def _numerics(*args, keep_bools=False, to_number=lambda x: x):
         args = (
             to_number(a) for a in args if keep_bools or not isinstance(a, bool)
         )
-        return tuple(x for x in args if isinstance(x, (int, float)))
+        return tuple(x for x in args if isinstance(x, (int, float, np.integer)))
 
 
 @excel_math_func
@@ -391,7 +391,8 @@ def sumproduct(*args):
             if all(not isinstance(arg, tuple) for arg in args):
                 # the all scalers case is valid.
                 values = (
-                    x if isinstance(x, (float, int, type(None))) and not isinstance(x, bool) else 0
+                    x if isinstance(x, (float, int, np.integer, type(None)))
+                    and not isinstance(x, bool) else 0
                     for x in args
                 )
                 try:
@@ -406,7 +407,7 @@ def sumproduct(*args):
 
     # put the values into numpy vectors
     values = np.array(tuple(tuple(
-        x if isinstance(x, (float, int)) and not isinstance(x, bool) else 0
+        x if isinstance(x, (float, int, np.integer)) and not isinstance(x, bool) else 0
         for x in flatten(arg)) for arg in args))
 
     # return the sum product
